@@ -54,9 +54,12 @@ type raceReport struct {
 	Stuck      []string `json:"stuck,omitempty"` // requests that were neither answered nor failed (family deliver-close)
 	// the same when the handler's context had been cancelled before close() (what CqlClientConnection.Close does)
 	StuckAfterCancel []string `json:"stuck_after_cancel,omitempty"`
+	// family handshake-steps: "kind\x00what" pairs (handshake-hangs, goroutine-leak, harness)
+	Sessions []string `json:"sessions,omitempty"`
+	Observed []string `json:"observed,omitempty"` // "name\x00what": characterised, not judged
 }
 
-var raceFamilies = []string{"timeout-delivery", "send-close-client", "send-close-server", "close-flood-server", "close-flood-client", "deliver-close"}
+var raceFamilies = []string{"timeout-delivery", "send-close-client", "send-close-server", "close-flood-server", "close-flood-client", "deliver-close", "handshake-steps"}
 
 // ---------------------------------------------------------------------------------------------- parent
 
@@ -74,7 +77,7 @@ func raceBox(tier, family string) time.Duration {
 }
 
 // two families run at a time (each keeps four to six cores busy); the two long ones are not paired with each other
-var raceOrder = [][]string{{"close-flood-server", "timeout-delivery"}, {"close-flood-client", "send-close-client"}, {"send-close-server", "deliver-close"}} // lanes: 19 s and 13 s
+var raceOrder = [][]string{{"close-flood-server", "timeout-delivery"}, {"close-flood-client", "send-close-client"}, {"send-close-server", "deliver-close"}, {"", "handshake-steps"}} // lanes: 19 s and 13 s + the handshake sessions
 
 func runRaces(tier string) {
 	type outcome struct {
@@ -118,7 +121,7 @@ func runRaces(tier string) {
 		go func(lane int) {
 			defer wg.Done()
 			for _, pair := range raceOrder {
-				if lane < len(pair) {
+				if lane < len(pair) && pair[lane] != "" {
 					runOne(pair[lane])
 				}
 			}
@@ -135,6 +138,11 @@ func runRaces(tier string) {
 		}
 		if o.rep.Hang != "" {
 			rec.Failures = append(rec.Failures, sockFailure{Kind: "close-hangs", What: fmt.Sprintf("%s: no progress for 6s after %d iterations; %.3000s", fam, o.rep.Iterations, o.rep.Hang), Case: caseOf})
+		}
+		for _, p := range o.rep.Sessions {
+			if kv := strings.SplitN(p, "\x00", 3); len(kv) == 3 {
+				rec.Failures = append(rec.Failures, sockFailure{Kind: kv[0], What: kv[2], Case: map[string]interface{}{"handshake_session": kv[1]}})
+			}
 		}
 		for _, p := range o.rep.Stuck {
 			rec.Failures = append(rec.Failures, sockFailure{Kind: "request-stuck", Cls: "close", What: fam + ": " + p, Case: caseOf})
@@ -163,6 +171,11 @@ func runRaces(tier string) {
 			rec.Distinct = 1
 		}
 		hlib.Emit(rec)
+		for _, p := range o.rep.Observed {
+			if kv := strings.SplitN(p, "\x00", 2); len(kv) == 2 {
+				hlib.Emit(observation{Kind: "observation", Name: kv[0], Observed: kv[1]})
+			}
+		}
 	}
 }
 
@@ -220,8 +233,11 @@ func raceChild(family string, millis int64) {
 		hlib.Emit(st.rep)
 		hlib.Flush()
 	}
-	// progress watchdog: a Close (or anything else) that never returns
+	// progress watchdog: a Close (or anything else) that never returns (the handshake sessions bound every wait themselves)
 	go func() {
+		if family == "handshake-steps" {
+			return
+		}
 		last, since := int64(-1), time.Now()
 		for {
 			time.Sleep(250 * time.Millisecond)
@@ -236,6 +252,13 @@ func raceChild(family string, millis int64) {
 			}
 		}
 	}()
+	if family == "handshake-steps" {
+		st.rep.Workers = 1
+		st.deadline = time.Now().Add(10 * time.Minute) // deterministic sessions, not a time box
+		handshakeSessions(st)
+		finish()
+		return
+	}
 	var wg sync.WaitGroup
 	for w := 0; w < workers; w++ {
 		wg.Add(1)
